@@ -78,6 +78,9 @@ var c18Sections = map[string][]c18Variant{
 		{"load_balancer:\n  strategy: \"round_robin\"\n  websocket_pool:\n    enabled: true\n    max_idle: 5\n    max_active: 5\n", true, "pool idle == active", false},
 		{"load_balancer:\n  strategy: \"round_robin\"\n  websocket_pool:\n    enabled: true\n    max_idle: 5\n    max_active: 0\n    idle_timeout_seconds: 60\n", true, "pool max_active 0 (unlimited) with max_idle 5", false},
 		{"load_balancer:\n  strategy: \"ip_hash\"\n  websocket_pool:\n    enabled: true\n    max_idle: 1\n", true, "pool max_active omitted with max_idle 1", false},
+		{"load_balancer:\n  strategy: \"round_robin\"\n  websocket_pool:\n    enabled: true\n    max_idle: 5000\n    max_active: 0\n", true, "pool max_active 0 (unlimited) with max_idle 5000", false},
+		{"load_balancer:\n  strategy: \"least_connections\"\n  websocket_pool:\n    enabled: true\n    max_idle: 101\n    idle_timeout_seconds: 5\n", true, "pool max_active omitted with max_idle 101", false},
+		{"load_balancer:\n  strategy: \"round_robin\"\n  websocket_pool:\n    enabled: true\n    max_idle: 1000000\n    max_active: 1000000\n    idle_timeout_seconds: 86400\n", true, "pool large equal limits", false},
 		{"load_balancer:\n  strategy: \"round_robin\"\n  websocket_pool:\n    enabled: false\n    max_idle: -5\n", true, "pool disabled, values ignored", false},
 		{"load_balancer:\n  websocket_pool:\n    enabled: true\n    max_idle: 2\n    max_active: 4\n    idle_timeout_seconds: 30\n", true, "pool valid, strategy omitted", false},
 		{"load_balancer:\n  websocket_pool:\n    enabled: true\n    max_idle: -1\n", false, "pool negative max_idle, strategy omitted", false},
